@@ -170,6 +170,10 @@ func Render(d Doc) string {
 		if p.RPlac != "" {
 			b.WriteString("1 RESI\n")
 			plac(&b, 2, p.RPlac)
+			if i%2 == 1 { // a place further down than the children of an event
+				b.WriteString("1 RESI\n2 ADDR q\n")
+				plac(&b, 3, "D"+p.RPlac)
+			}
 		}
 		if p.Note != "" {
 			fmt.Fprintf(&b, "1 NOTE %s\n", p.Note)
@@ -264,6 +268,7 @@ type Job struct {
 	Taint    string   `json:"taint"`
 	GoMax    int      `json:"gomax"`    // GOMAXPROCS of the child (0 = 4)
 	EditFrom string   `json:"editfrom"` // instead of decoding the text: decode this one, publish it, delete the marked DEAT events, then publish as asked
+	Both     bool     `json:"both"`     // with First: both publishers are created before the first one publishes
 	First    string   `json:"first"`    // the decoded document is first published with this visibility, then as asked (same *Document)
 }
 
@@ -497,14 +502,23 @@ func Child(r io.Reader, w io.Writer) error {
 			}
 			continue
 		}
+		var asked *ghtml.Publisher
 		if last && job.First != "" {
 			o := job.Opts
 			o.Living = job.First
-			ghtml.NewPublisher(doc, options(o)).Publish(&memWriter{raw: map[int][]byte{}}, job.Jobs)
+			first := ghtml.NewPublisher(doc, options(o))
+			if job.Both {
+				// both publishers exist before either publishes (a complete and a public site made from one document)
+				asked = ghtml.NewPublisher(doc, options(job.Opts))
+			}
+			first.Publish(&memWriter{raw: map[int][]byte{}}, job.Jobs)
+		}
+		if asked == nil {
+			asked = ghtml.NewPublisher(doc, options(job.Opts))
 		}
 		done := make(chan error, 1)
 		go func() {
-			done <- ghtml.NewPublisher(doc, options(job.Opts)).Publish(mw, job.Jobs)
+			done <- asked.Publish(mw, job.Jobs)
 		}()
 		select {
 		case err := <-done:
@@ -707,6 +721,8 @@ func observe(c Case) Obs {
 		if c.Opts.Living != "show" {
 			// the same decoded document published with everybody shown first, in the same process
 			add("aftershow", Job{Mode: "site", Texts: []string{text}, Opts: c.Opts, Jobs: jobs[0], Universe: uni, Detail: true, First: "show"}, false)
+			// ... and with both publishers created before the complete site is published
+			add("bothfirst", Job{Mode: "site", Texts: []string{text}, Opts: c.Opts, Jobs: jobs[0], Universe: uni, Detail: true, First: "show", Both: true}, false)
 		}
 		if c.Opts.Living != "show" {
 			// published while the living people still had a death event, which is then deleted from the document in memory
